@@ -53,6 +53,10 @@ def contract_fn(f):
     return f
 
 
+class SkipInput(Exception):
+    """Raised by run_concrete for an enumerated input that does not reach the contract (e.g. outside a slice)."""
+
+
 class Spec:
     """Base class of a sidecar contract for one repository function."""
 
@@ -66,6 +70,8 @@ class Spec:
     sizes: dict = {}  # name -> range of concrete lengths explored in bounded (refutation) mode
     assumptions: list = []
     notes = ""
+    body_from = None  # verify only the top-level statements from the first one whose source starts with this text;
+    #                   the state at that point is then the abstract state built by make_inputs (listed as an assumption)
 
     # -- symbolic side ---------------------------------------------------------------------
     def make_inputs(self, ex, sym, fr):
@@ -99,8 +105,10 @@ class Spec:
         return None
 
     # helpers for setup()
+    scenario = None  # label of an enumerated case split (concrete `how`, `side` ...) or of a statement slice
+
     def name(self):
-        return f"{self.file}::{self.qualname}"
+        return f"{self.file}::{self.qualname}" + (f"[{self.scenario}]" if self.scenario else "")
 
 
 class SymTab:
@@ -129,7 +137,7 @@ class SymTab:
 
     def seq(self, name, sort=None, size=None, kind="tuple", min_len=0):
         """A symbolic sequence; its length is concrete in bounded mode (key `size or name`)."""
-        sort = sort or z3.IntSort()
+        sort = z3.IntSort() if sort is None else sort
         f = z3.Function(name, z3.IntSort(), sort)
         key = size or name
         if key in self.sz:
@@ -229,8 +237,15 @@ def _run_once(spec, fn_node, mode, sz):
         pv.obligations.append(Obligation(spec.name() + "#reach:precondition", "discharged", "z3", 0.0, mode=mode))
     else:
         pv.obligations.append(Obligation(spec.name() + "#reach:precondition", "unknown", "z3", 0.0, detail="precondition satisfiability unknown", mode=mode))
+    stmts = fn_node.body
+    if spec.body_from is not None:
+        idx = [k for k, st in enumerate(stmts) if ast.unparse(st).startswith(spec.body_from)]
+        if len(idx) != 1:
+            pv.unsupported(spec.name() + "#subset", f"statement slice anchor {spec.body_from!r} matches {len(idx)} top-level statements")
+            return pv, ex, sym
+        stmts = stmts[idx[0]:]
     try:
-        live = ex.run_block(fn_node.body, [fr])
+        live = ex.run_block(stmts, [fr])
     except Unsupported as u:
         pv.unsupported(spec.name() + "#subset", str(u))
         return pv, ex, sym
@@ -267,7 +282,7 @@ def _agg_name(name):
 
     name = re.sub(r"@L\d+", "", name)
     name = re.sub(r"#\d+$", "", name)
-    name = re.sub(r"(loop\d+)#\d+$", r"\1", name)
+    name = re.sub(r"(loop\d+)#\d+", r"\1", name)
     return name
 
 
@@ -283,6 +298,10 @@ def size_space(spec):
 def verify_spec(spec, repo=None, crosscheck=True):
     t0 = time.time()
     fn_node, meta = extract(spec.file, spec.qualname, repo)
+    if spec.body_from is not None:
+        meta = dict(meta, dropped=meta["dropped"] + [f"top-level statements before `{spec.body_from}` (their effect is the abstract entry state of the contract)"])
+    if getattr(spec, "scenario", None):
+        meta = dict(meta, scenario=spec.scenario)
     rep = FunctionReport(spec, meta)
     try:
         pv, ex, sym = _run_once(spec, fn_node, "proof", {})
@@ -352,8 +371,11 @@ def verify_spec(spec, repo=None, crosscheck=True):
                 pre_env = spec.concrete_env(inputs) if hasattr(spec, "concrete_env") else None
                 if pre_env is not None and not all(bool(cl(cxc, pre_env)) for cl in spec.requires().values()):
                     continue  # outside the precondition
+                try:
+                    ok, why = check_concrete(spec, inputs)
+                except SkipInput:
+                    continue
                 rep.crosscheck["inputs"] += 1
-                ok, why = check_concrete(spec, inputs)
                 if not ok:
                     rep.crosscheck["contract_fail"].append({"inputs": _jsonable(inputs), "why": why})
                     if len(rep.crosscheck["contract_fail"]) >= 3:
@@ -369,6 +391,8 @@ def check_concrete(spec, inputs):
     cx = ConcCtx(getattr(spec, "concrete_globals", lambda: {})())
     try:
         env, result = spec.run_concrete(inputs)
+    except SkipInput:
+        raise
     except Exception as e:
         if getattr(e, "_verif_setup_error", False):
             raise
